@@ -252,6 +252,25 @@ pub fn c16_q_trait_impls() {
     reach!(n < 0 && o.is_zero_sized() && !r.is_zero_sized(), "reach.collapse");
 }
 
+/// `with_center(c, s)` for ANY centre and size: the size is kept and `center()` gives `c` back.
+#[cfg_attr(kani, kani::proof, kani::unwind(3))]
+pub fn c16_q_with_center() {
+    let c = point(PB);
+    let s = size(SB);
+    let q = point(QB);
+    note!("c", c);
+    note!("s", s);
+    let r = Rectangle::with_center(c, s);
+    note!("r", r);
+    check!(r.size == s, "C16.with_center_size");
+    check!(r.center() == c, "C16.with_center_center");
+    check!(l(&r) == c.x as i64 - max(w(&r) - 1, 0) / 2 && t(&r) == c.y as i64 - max(h(&r) - 1, 0) / 2, "C16.with_center_top_left");
+    if !r.is_zero_sized() { check!(r.contains(c), "C16.with_center_contains_center"); }
+    check!(r.contains(q) == in_rect(&r, q), "C16.contains");
+    reach!(s.width % 2 == 0 && s.width > 0 && c.x < 0, "reach.even_negative");
+    reach!(r.is_zero_sized(), "reach.zero");
+}
+
 /// Self-test: the repository's own rectangle expectations, concrete.
 #[cfg_attr(kani, kani::proof, kani::unwind(3))]
 pub fn c16_q_selftest() {
